@@ -114,7 +114,7 @@ def check(inp):
             for h, v in zip(header[1:], row[1:]):
                 if h == "gamma-k":
                     try:
-                        got[h] = {k: float(x) for k, x in eval(v, {"__builtins__": {}}, {}).items()}      # "{'1': 0.5, ...}" of plain numbers
+                        got[h] = {k: float(x) for k, x in eval(v, {"__builtins__": {}}, {"inf": float("inf"), "nan": float("nan")}).items()}   # "{'1': 0.5, '7': -inf}": plain numbers (inf / nan print as such)
                     except Exception:   # noqa
                         return fail("the CSV gamma-k cell holds the numbers themselves", inp, v, "a dict of plain numbers")
                 else:
